@@ -1041,6 +1041,31 @@ impl<'c, 'a, 'w> PGen<'c, 'a, 'w> {
         }
     }
 
+    /// a literal of type `t` (no IR statement is needed to evaluate it), when the type has literals
+    fn plain_literal(&mut self, t: &T) -> Option<E> {
+        Some(match t {
+            T::Int => lit_i(self.ch.below(9) as i64 - 2),
+            T::Str => { let s = (*self.ch.pick(&["", "zero", "one", "zero or one", "many", "a"])).to_owned(); E::Str(s.clone(), crate::qml::js_string(&s)) }
+            T::Bool => E::Bool(self.ch.chance(1, 2)),
+            T::Double => { let (v, sp) = *self.ch.pick(DOUBLES); E::Float(v, sp.to_owned()) }
+            T::Mode => E::EnumLit(*self.ch.pick(MODES), T::Mode),
+            T::Opts => E::EnumLit(*self.ch.pick(OPTS), T::Opts),
+            _ => return None,
+        })
+    }
+
+    /// the value expression of a switch clause: a plain literal in one case of three (a clause made
+    /// only of literal expression statements has a completion value but no statement)
+    fn clause_value(&mut self, t: &T) -> E {
+        if self.ch.chance(1, 3) {
+            if let Some(l) = self.plain_literal(t) {
+                self.ch.label("literal-only-switch-clause");
+                return l;
+            }
+        }
+        self.expr(t, 2)
+    }
+
     fn case_label(&mut self, st: &T, pool: &mut Vec<E>) -> E {
         let e = match self.ch.weighted(&[75, 15, 10]) {
             0 => match st {
@@ -1107,7 +1132,7 @@ impl<'c, 'a, 'w> PGen<'c, 'a, 'w> {
                         let v = self.expr(t, 2);
                         rest.push(S::If(c, Box::new(S::Block(vec![S::Expr(v), S::Break])), None));
                     }
-                    rest.push(if d > 0 && self.ch.chance(1, 4) { self.tail_stmt(t, d - 1) } else { S::Expr(self.expr(t, 2)) });
+                    rest.push(if d > 0 && self.ch.chance(1, 4) { self.tail_stmt(t, d - 1) } else { S::Expr(self.clause_value(t)) });
                     rest.push(S::Break);
                     if !last && dpos == pos { self.ch.label("break-ends-middle-default"); }
                 }
@@ -1117,7 +1142,7 @@ impl<'c, 'a, 'w> PGen<'c, 'a, 'w> {
                 }
                 2 => {
                     // value, then fall through (or end of switch)
-                    rest.push(S::Expr(self.expr(t, 2)));
+                    rest.push(S::Expr(self.clause_value(t)));
                     if !last { self.ch.label("fall-through-after-value"); }
                 }
                 _ => {
@@ -1142,6 +1167,17 @@ impl<'c, 'a, 'w> PGen<'c, 'a, 'w> {
             bodies.push(body);
         }
         self.in_switch -= 1;
+        // directed shape, one switch in four: a clause with a value falls through into a clause that
+        // consists of one literal only (a completion value without any statement)
+        if nb >= 2 && self.ch.chance(1, 4) {
+            if let Some(lit) = self.plain_literal(t) {
+                self.ch.label("value-clause-falls-into-literal-only-clause");
+                let p = self.ch.below(nb - 1);
+                let v = self.expr(t, 2);
+                bodies[p] = vec![S::Expr(v)];
+                bodies[p + 1] = if p + 2 == nb && self.ch.chance(1, 2) { vec![S::Expr(lit)] } else { vec![S::Expr(lit), S::Break] };
+            }
+        }
         let mut pool = vec![];
         let mut cases = vec![];
         let mut default = None;
@@ -1231,8 +1267,29 @@ impl<'c, 'a, 'w> PGen<'c, 'a, 'w> {
                 break;
             }
             self.prefix(d, &mut out);
-            let k = if d == 0 { 0 } else { self.ch.weighted(&[50, 18, 14, 8, 5, 5]) };
+            let k = if d == 0 { if self.ch.chance(1, 8) { 6 } else { 0 } } else { self.ch.weighted(&[50, 18, 14, 8, 5, 5, 10]) };
             match k {
+                6 => {
+                    // declaration whose initialiser has a side effect (a value-returning invokable);
+                    // often the last statement of its list
+                    let sigs = self.sig_objs();
+                    if sigs.is_empty() {
+                        let e = self.effect(d + 1);
+                        out.push(S::Expr(e));
+                    } else {
+                        self.ch.label("declaration-with-call-initialiser");
+                        let o = *self.ch.pick(&sigs);
+                        let arg = self.expr(&T::Int, 1);
+                        let i = self.new_local(T::Int, None);
+                        let is_const = self.ch.chance(1, 2);
+                        out.push(S::Decl(i, is_const, false, Some(E::CallMethod(Box::new(E::Obj(o)), "twice", vec![arg], T::Int))));
+                        self.scope.push(i);
+                        self.assigned.insert(i);
+                        if is_const {
+                            self.consts.insert(i);
+                        }
+                    }
+                }
                 0 => {
                     let e = self.effect(d + 1);
                     out.push(S::Expr(e));
